@@ -60,6 +60,33 @@ def cleanList : List Q → Bool
   | q :: qs => clean q && cleanList qs
 end
 
+/-! ### The empty term
+
+On an index that holds the empty term (an `ID` field with value `""`) one more rewrite is not meaning
+preserving: an *exclusive* start that is open (`None`) or the empty string leaves the empty term out
+of a `TermRange`, but `TermRange.normalize` turns `{ TO ...]` into `Every(f)` and the comparables of
+`RangeMixin.overlaps/merge` forget the exclusion of an open start.  `emptyOk q` says that no such
+range is a leaf that `normalize` rewrites or a clause of a merging loop (on an index without the empty
+term nothing is demanded: hypothesis `emptyOk q = true ∨ no document holds the empty term`). -/
+
+/-- The clause is not a `TermRange` with an exclusive open/empty start. -/
+def rangeOk (s : Q) : Bool :=
+  match s.asRange with
+  | some r => !(r.lox && (r.lo == none || r.lo == some []))
+  | none => true
+
+mutual
+def emptyOk : Q → Bool
+  | .range _ lo _ lx _ _ _ => !(lx && (lo == none || lo == some []))
+  | .comp k qs _ => emptyOkList qs && (flatten k (normalizeList qs)).all rangeOk
+  | .not q _ => emptyOk q
+  | .bin _ a b => emptyOk a && emptyOk b
+  | _ => true
+def emptyOkList : List Q → Bool
+  | [] => true
+  | q :: qs => emptyOk q && emptyOkList qs
+end
+
 mutual
 def defects : Q → List String
   | .comp k qs _ =>
